@@ -812,12 +812,49 @@ func convertToExp(parser *syntax.Parser, split bool, val json.Marshaler,
 			if err := json.Unmarshal(val, &jv); err != nil {
 				return nil, err
 			}
-			if v := bytes.TrimSpace(jv.Split); len(v) > 0 && v[0] == '{' &&
-				tname.MapDim == 0 {
-				// The parameter is split over a map, so the value is a
-				// map of the parameter's type, not a struct of that type.
-				tname.MapDim = tname.ArrayDim + 1
-				tname.ArrayDim = 0
+			if v := bytes.TrimSpace(jv.Split); len(v) > 0 && v[0] == '{' {
+				if tname.MapDim == 0 {
+					// The parameter is split over a map, so the value is a
+					// map of the parameter's type, not a struct of that type.
+					tname.MapDim = tname.ArrayDim + 1
+					tname.ArrayDim = 0
+				} else {
+					// The parameter is itself a typed map (or an array of
+					// typed maps), so the value is a map of those, for
+					// which there is no type id.  Convert each value at
+					// the parameter's type.
+					m := syntax.MapExp{
+						Kind:  syntax.KindMap,
+						Value: make(map[string]syntax.Exp),
+					}
+					dec := json.NewDecoder(bytes.NewReader(v))
+					if _, err := dec.Token(); err != nil {
+						return nil, err
+					}
+					for dec.More() {
+						k, err := dec.Token()
+						if err != nil {
+							return nil, err
+						}
+						var elem json.RawMessage
+						if err := dec.Decode(&elem); err != nil {
+							return nil, err
+						}
+						e, err := convertToExp(parser, false,
+							elem, tname, lookup)
+						if err != nil {
+							return nil, err
+						}
+						m.Value[k.(string)] = e
+					}
+					if _, err := dec.Token(); err != nil {
+						return nil, err
+					}
+					return &syntax.SplitExp{
+						Value:  &m,
+						Source: &m,
+					}, nil
+				}
 			}
 			exp, err := convertToExp(parser, false,
 				jv.Split, tname, lookup)
